@@ -26,7 +26,12 @@ impl EmissionConstraint {
             }
             EmissionConstraint::Uniform(v) => *v,
             EmissionConstraint::Clamp(min, max) => {
-                EmitIntensity((value * 255.).round().clamp(min.0 as f32, max.0 as f32) as u8)
+                // `f32::clamp` keeps NaN and `NaN as u8` is 0, which may lie below `min`:
+                // clamp once more after the cast so that the bounds hold for every coefficient.
+                EmitIntensity(
+                    ((value * 255.).round().clamp(min.0 as f32, max.0 as f32) as u8)
+                        .clamp(min.0, max.0),
+                )
             }
         }
     }
